@@ -31,7 +31,7 @@ pub fn build_tuftool() -> Result<PathBuf, String> {
     let target = verif_root().join("harness").join("target-tuftool");
     let out = std::process::Command::new("cargo")
         .args(["build", "--offline", "-p", "tuftool", "--bin", "tuftool"])
-        .current_dir("/repo")
+        .current_dir(std::env::var("VERIF_REPO_DIR").unwrap_or_else(|_| "/repo".to_string()))
         .env("CARGO_TARGET_DIR", &target)
         .env("CARGO_NET_OFFLINE", "true")
         .env("CARGO_TERM_COLOR", "never")
